@@ -54,7 +54,8 @@ def required_cells(tier):
     return ["row:empty-set", "platforms>=3", "platforms=0", "platforms=1", "dir-levels>=2", "pruned-file", "symlink-row",
             "summary", "tree", "tree:prune", "tree:-L", "cov", "clustering", "fortran-file", "asm-file",
             "dotted-directory", "crlf-file", "non-utf8-file", "sloc>=1000",
-            "report-selection:-R", "report-selection:--report", "report-selection:default-all", "report-selection:-R-all"]
+            "report-selection:-R", "report-selection:--report", "report-selection:default-all", "report-selection:-R-all",
+            "exclude:analysis-file-plus-command-line", "hard-link", "cov:-S-through-symlink"]
 
 
 def close2(printed, exact):
@@ -85,6 +86,8 @@ def gen_case(rng):
         links["extra/outlink.h"] = "@out/far.h"
     case["extra"] = extra
     case["links"] = links
+    # a second directory entry (hard link) for an unused file: two names, two files of the code base
+    case["hard"] = {"extra/deep/hl_u.c": "extra/u.c"} if "extra/u.c" in extra and rng.random() < 0.6 else {}
     return case
 
 
@@ -103,6 +106,11 @@ def materialize(case, base):
         os.makedirs(os.path.dirname(p), exist_ok=True)
         if not os.path.lexists(p):
             os.symlink(forest.abspath(root, out, t) if t.startswith("@out/") else t, p)
+    for l, t in case.get("hard", {}).items():
+        p = os.path.join(root, l)
+        os.makedirs(os.path.dirname(p), exist_ok=True)
+        if not os.path.lexists(p):
+            os.link(os.path.join(root, t), p)
     return root, rendered
 
 
@@ -234,7 +242,13 @@ def check_case(ctx, case, base, cls, do_clustering=False):
     problems = []
     try:
         conf = forest.cbi_configuration(case, base)
-        state, cb = cbi.run_find(realroot, conf)
+        # every other case excludes files by pattern, half of the patterns in the analysis file, half on the command line
+        # of each front end (cbi-cov has no analysis file: it gets all of them with -x)
+        toml_ex, cli_ex = (["extra/deep/er/"], ["*.s", "extra/empty.h"]) if len(case["files"]) % 2 == 0 else ([], [])
+        xargs = [a for x in cli_ex for a in ("-x", x)]
+        if toml_ex:
+            cells.add("exclude:analysis-file-plus-command-line")
+        state, cb = cbi.run_find(realroot, conf, exclude_patterns=cli_ex + toml_ex)
         for p in inv_check(state):
             problems.append({"kind": "H-inv", "what": p})
         acc.hook("H-inv")
@@ -268,6 +282,8 @@ def check_case(ctx, case, base, cls, do_clustering=False):
             cells.add("asm-file")
         if any("." in os.path.dirname(os.path.relpath(fn, realroot)) for fn in fsm):
             cells.add("dotted-directory")
+        if case.get("hard"):
+            cells.add("hard-link")
         if "extra/lib-1.2/w.c" in case["extra"]:
             cells.add("crlf-file")
         if "extra/v2.0/d.ir/l1.h" in case["extra"]:
@@ -279,12 +295,15 @@ def check_case(ctx, case, base, cls, do_clustering=False):
             with open(os.path.join(realroot, "analysis.toml"), "w") as f:
                 f.write("[platform]\n")
             toml = "analysis.toml"
+        if toml_ex:
+            with open(os.path.join(realroot, toml), "a") as f:
+                f.write("\n[codebase]\nexclude = [%s]\n" % ", ".join('"%s"' % x for x in toml_ex))
         # (2) summary
         # the same reports requested in four equivalent ways: -R summary, --report summary, no -R at all (every report),
         # the deprecated -R all
         variant = len(case["files"]) % 4
         rargs = [["-R", "summary"], ["--report", "summary"], [], ["-R", "all"]][variant]
-        rc, out, err = cli.run("codebasin", rargs + [toml], realroot, timeout=600)
+        rc, out, err = cli.run("codebasin", xargs + rargs + [toml], realroot, timeout=600)
         acc.hook("cli-runs")
         cells.add("report-selection:" + ["-R", "--report", "default-all", "-R-all"][variant])
         if rc == 0 and variant >= 2:
@@ -319,7 +338,7 @@ def check_case(ctx, case, base, cls, do_clustering=False):
         # (3) tree
         for tag, args, kw in [("tree", [], {}), ("tree:prune", ["--prune"], {"prune": True}), ("tree:-L", ["-L", "1"], {"levels": 1}),
                               ("tree:-L", ["-L", "2"], {"levels": 2}), ("tree:-L", ["-L", "3", "--prune"], {"levels": 3, "prune": True})]:
-            rc, out, err = cli.run("cbi-tree", args + [toml], realroot)
+            rc, out, err = cli.run("cbi-tree", xargs + args + [toml], realroot)
             acc.hook("cli-runs")
             if rc != 0:
                 problems.append({"kind": "cbi-tree failed", "args": args, "stderr": err[-300:]})
@@ -334,7 +353,16 @@ def check_case(ctx, case, base, cls, do_clustering=False):
         for dbn in dbs:
             p = plat_of_db.get(dbn, dbn[:-5])
             covp = os.path.join(base, "cov.json")
-            rc, out, err = cli.run("cbi-cov", ["compute", "-S", realroot, "-o", covp, os.path.join(base, "dbs", dbn)], realroot)
+            # the source directory is named directly, or through a symbolic link to it (from another working directory)
+            sdir, cwd_ = realroot, realroot
+            if len(case["files"]) % 3 == 0:
+                sdir = os.path.join(base, "rootlink")
+                if not os.path.lexists(sdir):
+                    os.symlink(realroot, sdir)
+                cwd_ = base
+                cells.add("cov:-S-through-symlink")
+            rc, out, err = cli.run("cbi-cov", ["compute", "-S", sdir, "-o", covp] + [a for x in cli_ex + toml_ex for a in ("-x", x)] +
+                                   [os.path.join(base, "dbs", dbn)], cwd_)
             acc.hook("cli-runs")
             if rc != 0:
                 problems.append({"kind": "cbi-cov failed", "stderr": err[-300:]})
@@ -362,7 +390,7 @@ def check_case(ctx, case, base, cls, do_clustering=False):
                                      "observed_used": sorted(e["used_lines"])[:12], "expected_unused": unused[:12], "observed_unused": sorted(e["unused_lines"])[:12]})
         # clustering (distance matrix) on a sample
         if do_clustering and len(used_plats) >= 2 and not problems:
-            rc, out, err = cli.run("codebasin", ["-R", "clustering", toml], realroot, timeout=600)
+            rc, out, err = cli.run("codebasin", xargs + ["-R", "clustering", toml], realroot, timeout=600)
             acc.hook("cli-runs")
             hdr, cellsm = cli.parse_distance_matrix(out)
             if rc != 0 or hdr is None:
